@@ -6,6 +6,7 @@ AllCfgs == AllConfigNames
 CfgEmpty == {"empty"}
 CfgConn == {"conn", "two"}
 CfgCore == {"empty", "conn", "pend"}
+CfgRest == {"hreg", "two"}
 
 \* what the end of the connection must look like: the calls that return then (all with errors), the handler channels closed
 FinalInfo(s) == LET f == Final(s) IN
